@@ -492,7 +492,7 @@ func Main(p Prop) {
 		"known_findings_seen":           knownSeen,
 		"op_histogram":                  opHist,
 		"kind_histogram":                kindHist,
-		"impl_output_histogram":         topN(outHist, 25),
+		"impl_output_histogram":         topN(outHist, 40),
 	}
 	if p.Extra != nil {
 		for k, v := range p.Extra() {
